@@ -213,10 +213,11 @@ Fixpoint copy_loop (l : text) (dot_found : bool) (den : nat) (acc : text) : text
     else copy_loop r dot_found (if dot_found then S den else den) (c :: acc)
   end.
 
-(* "Remove leading zeros, if any": while not at the last character and the character is '0' *)
+(* "Remove leading zeros, if any": while not at the last character, the character is '0' and the
+   next one is a digit (so the only digit of a zero numerator "0/10" stays) *)
 Fixpoint strip_lz (l : text) : text :=
   match l with
-  | c :: (_ :: _) as r => if c =c? "0" then strip_lz r else l
+  | c :: (d :: _) as r => if (c =c? "0") && is_digit d then strip_lz r else l
   | _ => l
   end.
 
@@ -256,14 +257,20 @@ Definition equiv_rational_string (input : text) : option text :=
           end)
   end.
 
+(* mpq_canonicalize on a (numerator, denominator) pair; a zero denominator is a division by zero in
+   the real code (left as it is here) *)
+Definition canonicalize_raw (nd : Z * Z) : Z * Z :=
+  match q_of_raw nd with Some q => (Qnum q, Zpos (Qden q)) | None => nd end.
+
 (* mps_monomial_poly_set_coefficient_s, one part: the (numerator, denominator) pair that ends up in
    initial_mqp_r/i: mpq_init gives 0/1; a NULL result or a failed mpq_set_str leaves it there;
-   there is NO mpq_canonicalize on this path *)
+   then mpq_canonicalize *)
 Definition api_coeff_raw (input : text) : Z * Z :=
-  match equiv_rational_string input with
-  | None => (0%Z, 1%Z)
-  | Some s => match mpq_str_raw s with Some nd => nd | None => (0%Z, 1%Z) end
-  end.
+  canonicalize_raw
+    match equiv_rational_string input with
+    | None => (0%Z, 1%Z)
+    | Some s => match mpq_str_raw s with Some nd => nd | None => (0%Z, 1%Z) end
+    end.
 
 Definition api_coeff_value (input : text) : option Q := q_of_raw (api_coeff_raw input).
 
